@@ -53,27 +53,23 @@ package gssapi
 
 //@ func (*gssapi.WrapToken).computeCheckSum(wt, key, keyUsage) (r, err)
 //@   pure
-//@   trusted_frame returned checksum slice is not tracked as fresh
 //@   ensures err == nil ==> wt.Payload != nil
 //@   ensures err == nil ==> exists t Ref, d Seq :: et_known(t) && et_id(t) == key.KeyType && wrap_cksum_input(d, wt.Payload, wt.Flags, wt.SndSeqNum)
 //@        && bytes(r) == et_cksum(t, bytes(key.KeyValue), keyUsage, d) && len(r) == et_hmacbits(t) / 8
 
 //@ func (*gssapi.WrapToken).Verify(wt, key, keyUsage) (ok, err)
 //@   pure
-//@   trusted_frame see computeCheckSum
 //@   ensures ok ==> err == nil
 //@   ensures ok ==> exists t Ref, d Seq :: et_known(t) && et_id(t) == key.KeyType && wrap_cksum_input(d, wt.Payload, wt.Flags, wt.SndSeqNum)
 //@        && bytes(wt.CheckSum) == et_cksum(t, bytes(key.KeyValue), keyUsage, d)
 
 //@ func (*gssapi.WrapToken).SetCheckSum(wt, key, keyUsage) (err)
 //@   modifies wt.CheckSum
-//@   trusted_frame see computeCheckSum
 //@   ensures err == nil ==> old(wt.CheckSum) == nil && wt.Payload != nil
 //@   ensures err == nil ==> exists t Ref, d Seq :: et_known(t) && et_id(t) == key.KeyType && wrap_cksum_input(d, wt.Payload, wt.Flags, wt.SndSeqNum)
 //@        && bytes(wt.CheckSum) == et_cksum(t, bytes(key.KeyValue), keyUsage, d) && len(wt.CheckSum) == et_hmacbits(t) / 8
 
 //@ func gssapi.NewInitiatorWrapToken(payload, key) (tok, err)
-//@   trusted_frame see computeCheckSum
 //@   pure
 //@   ensures err == nil ==> tok != nil && tok.Flags == 0 && tok.RRC == 0 && tok.SndSeqNum == 0 && tok.Payload == payload
 //@   ensures err == nil ==> exists t Ref, d Seq :: et_known(t) && et_id(t) == key.KeyType && wrap_cksum_input(d, payload, 0, 0)
@@ -111,21 +107,18 @@ package gssapi
 
 //@ func (*gssapi.MICToken).Verify(mt, key, keyUsage) (ok, err)
 //@   pure
-//@   trusted_frame see checksum
 //@   ensures ok ==> err == nil
 //@   ensures ok ==> exists t Ref, d Seq :: et_known(t) && et_id(t) == key.KeyType && mic_cksum_input(d, mt.Payload, mt.Flags, mt.SndSeqNum)
 //@        && bytes(mt.Checksum) == et_cksum(t, bytes(key.KeyValue), keyUsage, d)
 
 //@ func (*gssapi.MICToken).SetChecksum(mt, key, keyUsage) (err)
 //@   modifies mt.Checksum
-//@   trusted_frame see checksum
 //@   ensures err == nil ==> old(mt.Checksum) == nil && mt.Payload != nil
 //@   ensures err == nil ==> exists t Ref, d Seq :: et_known(t) && et_id(t) == key.KeyType && mic_cksum_input(d, mt.Payload, mt.Flags, mt.SndSeqNum)
 //@        && bytes(mt.Checksum) == et_cksum(t, bytes(key.KeyValue), keyUsage, d)
 
 //@ func gssapi.NewInitiatorMICToken(payload, key) (tok, err)
 //@   pure
-//@   trusted_frame see checksum
 //@   ensures err == nil ==> tok != nil && tok.Flags == 0 && tok.SndSeqNum == 0 && tok.Payload == payload
 //@   ensures err == nil ==> exists t Ref, d Seq :: et_known(t) && et_id(t) == key.KeyType && mic_cksum_input(d, payload, 0, 0)
 //@        && bytes(tok.Checksum) == et_cksum(t, bytes(key.KeyValue), 25, d)
